@@ -235,6 +235,20 @@ def build(rng: random.Random, size: str = "quick"):
             if accs:
                 # an unvalidated BBAN of the same bank whose account breaks off the computation half-way
                 add({"fn": "bban", "country": "DE", "value": code + accs[0][:5] + "A" + accs[0][6:]}, f"api:DE:{m}")
+    # the first and the last records of the effective bank list (whatever is built from that list in file order
+    # reaches them first / last)
+    bank_list = data.banks()
+    edge = []
+    for e_ in bank_list[:40]:
+        if e_.get("bank_code") and e_.get("bic") and len(edge) < 2:
+            edge.append(("first", e_))
+    for e_ in reversed(bank_list[-40:]):
+        if e_.get("bank_code") and e_.get("bic") and len(edge) < 4:
+            edge.append(("last", e_))
+    for where_, e_ in edge:
+        add({"fn": "from_bank_code", "country": e_["country_code"], "code": e_["bank_code"]}, f"edge:{where_}")
+        add({"fn": "candidates", "country": e_["country_code"], "code": e_["bank_code"]}, f"edge:{where_}")
+        add({"fn": "bic_lookup", "text": e_["bic"]}, f"edge:{where_}")
     # one object shared by several callers: validated under different flags / read at the same time
     de_listed = [k for k in keys if k[0] == "DE" and idx[k][0].get("checksum_algo") in G.METHODS][:1]
     shared = [("bic", "1234DEWW", [{}, {"enforce_swift_compliance": True}]), ("bic", "DEUTDEFF500", [{}, {"enforce_swift_compliance": True}]), ("bic", "DEUTDEF", [{}, {"enforce_swift_compliance": True}])]
